@@ -114,6 +114,13 @@ impl<T: High + Low + Close + Volume> Next<&T> for MoneyFlowIndex {
             } else {
                 self.total_negative_money_flow += popped;
             }
+            // Rounding residue must not turn a total of non-negative flows negative
+            if self.total_positive_money_flow < 0.0 {
+                self.total_positive_money_flow = 0.0;
+            }
+            if self.total_negative_money_flow < 0.0 {
+                self.total_negative_money_flow = 0.0;
+            }
         }
 
         if tp > self.previous_typical_price {
@@ -129,9 +136,13 @@ impl<T: High + Low + Close + Volume> Next<&T> for MoneyFlowIndex {
         }
         self.previous_typical_price = tp;
 
-        self.total_positive_money_flow
-            / (self.total_positive_money_flow + self.total_negative_money_flow)
-            * 100.0
+        let total_money_flow = self.total_positive_money_flow + self.total_negative_money_flow;
+        if total_money_flow == 0.0 {
+            // No money flow in the window (equal typical prices or no volume): neutral value
+            return 50.0;
+        }
+
+        self.total_positive_money_flow / total_money_flow * 100.0
     }
 }
 
